@@ -816,7 +816,7 @@ func e2eAll(c *corr.Ctx) {
 		recvRun(c, cloneForUnit(h), "e2e-corpus-unit-"+path)
 		run(h, "e2e-corpus-"+path)
 	}
-	n := c.N(70, 2500)
+	n := c.N(70, 600)
 	for i := 0; i < n; i++ {
 		for _, path := range e2ePaths {
 			h := genRecvHistoryWith(c, e2eBufSize)
